@@ -229,7 +229,7 @@ fn case(tier: Tier, rng: &mut Rng, rep: &mut Report) {
 }
 
 pub fn run(tier: Tier, seed: u64) -> MonOut {
-    let n = tier.n(2_000, 100_000);
+    let n = tier.n(40_000, 1_500_000);
     let rep = par_cases(seed, n, |_i, rng, rep| case(tier, rng, rep));
     MonOut {
         report: rep,
